@@ -4,7 +4,7 @@
 # package's own tests pass with it), runs the listed checks against it (as a build overlay; /repo is not touched) and files
 # everything under /verif/seeded/<Cnn>/.
 id=$1; pkg=$2; rx=$3; shift 3
-W=/tmp/seed-$id; O=/tmp/seed-$id-out
+P=${SEED_PREFIX:-seed}; D=$id${SEED_SUFFIX}; W=/tmp/$P-$id; O=/tmp/$P-$id-out
 export GOFLAGS=-mod=mod GOPROXY=off GOSUMDB=off GOTOOLCHAIN=local
 cd $W || exit 2
 git diff --quiet && { echo "worktree has no change"; exit 2; }
@@ -18,15 +18,15 @@ rm -f $W/$pkg/zz_seed_demo_test.go
 tests=$(go test -vet=off -count=1 -skip 'TestErrMissingSignatureRecreateDB|TestIsWritable|TestServiceNewAddresses' ./$pkg/ 2>&1 | tail -1)
 echo "demo with change:    $with"; echo "demo without change: $without"; echo "package tests with change: $tests"
 cd /verif
-mkdir -p seeded/$id /dev/shm/seedm
-cp /dev/shm/seed-$id.diff seeded/$id/patch.diff; cp $O/demo_test.go seeded/$id/; 
-tools/patch2mutant.py seeded/$id/patch.diff /dev/shm/seedm/$id.json >/dev/null
+mkdir -p seeded/$D /dev/shm/seedm
+cp /dev/shm/seed-$id.diff seeded/$D/patch.diff; cp $O/demo_test.go seeded/$D/; 
+tools/patch2mutant.py seeded/$D/patch.diff /dev/shm/seedm/$D.json >/dev/null
 res="{}"
 for c in "$@"; do
-  out=$(VERIF_MUTANT=/dev/shm/seedm/$id.json ./run $c quick 2>&1); code=$?
+  out=$(VERIF_MUTANT=/dev/shm/seedm/$D.json ./run $c quick 2>&1); code=$?
   v=$(echo "$out" | grep -m1 "^VIOLATION" ); d=$(echo "$out" | grep -m1 "^  detail:" | cut -c1-300)
   echo "check $c: exit $code $v"
   res=$(echo "$res" | jq --arg c "$c" --argjson code $code --arg d "$d" '. + {($c): {exit: $code, detail: $d}}')
 done
 jq --arg with "$with" --arg without "$without" --arg tests "$tests" --arg pkg "$pkg" --arg rx "$rx" --argjson checks "$res" \
-  '. + {verified_by_lead: {demo_package: $pkg, demo_test: $rx, demo_with_change: $with, demo_without_change: $without, package_tests_with_change: $tests, checks_run_quick: $checks}}' $O/meta.json > seeded/$id/meta.json
+  '. + {verified_by_lead: {demo_package: $pkg, demo_test: $rx, demo_with_change: $with, demo_without_change: $without, package_tests_with_change: $tests, checks_run_quick: $checks}}' $O/meta.json > seeded/$D/meta.json
